@@ -85,6 +85,7 @@ func runC13(c *Ctx, r *Rec) {
 
 	checkReceiverWrites(c, r, "D4-receiver-writes-persist", stk)
 	checkResetCompleteness(c, r, "D4-reset-complete", stk)
+	checkTypeLockPairing(c, r, "D4-lock-released", stk)
 	// ---- D1 constructors
 	cms := c.methodsOf(cls)
 	// every literal of the stack struct in the class's methods (constructors and their private helpers)
